@@ -357,7 +357,7 @@ fn c09_judge(case: &Case, run: &Run, an: &Analysis, stats: &mut Stats) -> CheckR
   if let Some(f) = crate::instr::stamp_timeliness(&run.log).into_iter().next() {
     return Err(Failure::new(format!("[{}] {}", f.tag, f.msg)));
   }
-  fail_on(an, &["stamp", "I2-verdict", "bu-verdict", "I2-unjustified-exec", "bu-unjustified-schedule", "missing-exec", "bu-missing-schedule", "incomplete-validation", "bu-unscheduled-exec", "bu-leftover", "panic-internal"])
+  fail_on(an, &["stamp", "I2-verdict", "bu-verdict", "I2-unjustified-exec", "bu-unjustified-schedule", "missing-exec", "bu-missing-schedule", "incomplete-validation", "bu-unscheduled-exec", "bu-leftover", "bu-missed-check", "bu-extra-check", "panic-internal"])
 }
 
 pub const C09: Spec = Spec {
